@@ -23,9 +23,9 @@ class StepModel:
         # a density matrix is Hermitian, not necessarily real: tr(L rdm1) is real for symmetric real L
         rdm1 = np.asarray(rdm1)
         lc = np.array([np.sum(Lg * (rdm1[0] + rdm1[1])) for Lg in self.L])
-        if np.max(np.abs(np.imag(lc)), initial=0.0) > 1e-10:
-            raise ValueError("rdm1 is not Hermitian")
-        self.l = np.real(lc).astype(float)  # mean-field values tr(L rdm1)
+        # mean-field values tr(L rdm1); every formula below is analytic in them, so a complex shift (a "density matrix"
+        # that is not Hermitian) is subtracted and compensated consistently as well
+        self.l = lc if np.max(np.abs(np.imag(lc)), initial=0.0) > 1e-12 else np.real(lc).astype(float)
         self.dt = float(dt)
         self.n_exp = int(n_exp_terms)
         self.psi = np.asarray(psi)
@@ -39,7 +39,9 @@ class StepModel:
         else:
             self.h_mod = np.array([h1[0] - v0 - v1, h1[1] - v0 - v1])
         self.exp_h1 = np.array([scipy.linalg.expm(-self.dt * self.h_mod[s] / 2.0) for s in (0, 1)])
-        self.h0_prop = -self.h0 + 0.5 * float(np.sum(self.l**2))
+        self.h0_prop = -self.h0 + 0.5 * np.sum(self.l**2)
+        if not np.iscomplexobj(self.l):
+            self.h0_prop = float(self.h0_prop)
         self.Lhat = [self.sec.one_body(Lg) for Lg in self.L]
         self.H = self.sec.hamiltonian(self.h0, self.h1, self.L)
 
